@@ -312,7 +312,21 @@ def correspondence(rep, rng, tier):
       lll.reduce = real_reduce
       hnp.HiddenNumberProblem, cr50.Cr50U2fGuesses = real_h, real_c
     if err is not None:
-      rep.notes.append('chain run %s raised %r (skipped)' % (name, err))
+      # review-2 M3: an exception of the real check (its own layer or a solver inside it) on a chain batch
+      # — real signatures, every r, s in [1, n-1]: inside C18's domain, and the biased issuer is NOT
+      # flagged — is a VIOLATION with the batch as replay; it used to be a note.  Outside the domain
+      # (never built here; kept for safety) it stays a note.
+      if c02s.well_formed(w, specs):
+        origin = c02s.raise_origin(err)
+        rep.violations.append(dict(
+            op='c08.chain', line='%s on %d signatures, curves %r, %s' % (name, len(specs), cids, reps_tag),
+            impl='err ' + type(err).__name__, model='bool; every signature of the biased issuer flagged',
+            what=('%s raised %r (innermost frame %s) on a WELL-FORMED planted-bias batch (%d signatures, every '
+                  'r, s in [1, n-1]); the biased issuer is not flagged' % (name, err, origin, len(specs))),
+            info=dict(kind='solver-raise', entry=name, origin=origin, tag=reps_tag,
+                      batch=[pb_.SerializeToString().hex() for pb_ in pbs])))
+      else:
+        rep.notes.append('chain run %s raised %r on a batch outside the C18 domain (skipped)' % (name, err))
       return
     verdicts = [c02s.read_verdict(pb, name) for pb in pbs]
     # nonce of every (a_i, b_i) pair / every (r, s, z)
